@@ -20,6 +20,16 @@ The `ExecutionClient` is a parameter: each request carries the `Script` of what 
 with it (respond after a delay or never; what it echoes). The indexer (`AccountEventIndexer`) is
 modelled as the identity on configured keys and as failing elsewhere (C04 is about the indexer).
 
+The client's answer (`Reply`) covers the whole of `UnindexedOrderError`
+(`barter-execution/src/error.rs:104-118`): `Connectivity(Timeout | ExchangeOffline | Socket)` as the
+CLIENT's answer (passed through unchanged by `order_error`, indexer.rs:253-258 — distinct from the
+manager's own timeout FATE, although `Connectivity(Timeout)` is the same error VALUE), and every
+`Rejected(ApiError::_)`: `AssetInvalid` / `BalanceInsufficient` name an asset and go through
+`find_asset_index`, `InstrumentInvalid` names an instrument (`find_instrument_index`), the rest
+(`RateLimit`, `OrderRejected`, `OrderAlreadyCancelled`, `OrderAlreadyFullyFilled`) name nothing
+(`api_error`, indexer.rs:203-220). A name the indexer does not know makes the whole response
+unindexable: it is logged and skipped (`continue`, manager.rs:282-289 / 308-315).
+
 Core Lean only.
 -/
 namespace BarterModel.ExecManager
@@ -42,13 +52,39 @@ structure Key where
   cid : Nat
   deriving DecidableEq, Repr
 
-/-- Content of the client's own answer: accepted (`Ok(Open)` / `Ok(Cancelled)`), rejected with an
-error that mentions no name (`ApiError::OrderRejected`), or rejected with an error naming an
-instrument (`ApiError::InstrumentInvalid(name, _)`, which the indexer has to translate). -/
+/-- `ConnectivityError` (`barter-execution/src/error.rs:50-62`) as the CLIENT's answer
+`Err(UnindexedOrderError::Connectivity(_))`. -/
+inductive Conn
+  /-- `ConnectivityError::Timeout` — the same VALUE the manager builds for its own timeout -/
+  | timeout
+  /-- `ConnectivityError::ExchangeOffline(exchange)` -/
+  | offline
+  /-- `ConnectivityError::Socket(text)` -/
+  | socket
+  deriving DecidableEq, Repr
+
+/-- The `ApiError`s that carry no asset / instrument name besides `OrderRejected`
+(`error.rs:89-99`): the indexer passes them through (`api_error`, indexer.rs:205, 216-218). -/
+inductive Nameless
+  | rateLimit
+  | orderAlreadyCancelled
+  | orderAlreadyFullyFilled
+  deriving DecidableEq, Repr
+
+/-- Content of the client's own answer — `Result<Open | Cancelled, UnindexedOrderError>`
+(`error.rs:104-118`): accepted (`Ok(Open)` / `Ok(Cancelled)`); `Rejected(ApiError::OrderRejected)`
+(`rejected`, names nothing); `Rejected(ApiError::InstrumentInvalid(name, _))` (the indexer has to
+translate the instrument name); `Connectivity(_)` as the client's answer; `Rejected(AssetInvalid
+(asset, _))` / `Rejected(BalanceInsufficient(asset, _))` (the indexer has to translate the ASSET
+name, `find_asset_index`); the remaining nameless `ApiError`s. Names are `Nat`s. -/
 inductive Reply
   | ok
   | rejected
   | invalidIns (i : Nat)
+  | connectivity (e : Conn)
+  | assetInvalid (a : Nat)
+  | balanceInsufficient (a : Nat)
+  | nameless (k : Nameless)
   deriving DecidableEq, Repr
 
 /-- What the scripted `ExecutionClient` does with one request. `delay = none`: never answers.
@@ -80,11 +116,14 @@ structure Req where
   deriving DecidableEq, Repr
 
 /-- `ExecutionManager { request_timeout, indexer.map }`: the manager's own exchange, the number of
-instruments configured for it, and the request timeout. -/
+instruments configured for it, the request timeout, and the number of ASSETS configured for it
+(`ExecutionInstrumentMap.asset_names`, map.rs:26; default 0 = no asset is known, which is what the
+C07 harness configured before the alphabet was extended). -/
 structure Cfg where
   exchange : Nat
   nInstr : Nat
   timeout : Nat
+  nAssets : Nat := 0
   deriving Repr
 
 inductive Outcome
@@ -92,7 +131,12 @@ inductive Outcome
   | full          -- open only: `OrderState::fully_filled()`
   | rejected      -- `OrderError::Rejected(ApiError::OrderRejected)`
   | invalidIns (i : Nat)   -- `OrderError::Rejected(ApiError::InstrumentInvalid(index i))`
-  | timeout       -- `OrderError::Connectivity(ConnectivityError::Timeout)`
+  | timeout       -- `OrderError::Connectivity(ConnectivityError::Timeout)` (the manager's own, or the client's answer)
+  | offline       -- `OrderError::Connectivity(ConnectivityError::ExchangeOffline(_))`
+  | socket        -- `OrderError::Connectivity(ConnectivityError::Socket(_))`
+  | assetInvalid (a : Nat)          -- `OrderError::Rejected(ApiError::AssetInvalid(index a, _))`
+  | balanceInsufficient (a : Nat)   -- `OrderError::Rejected(ApiError::BalanceInsufficient(index a, _))`
+  | nameless (k : Nameless)         -- `RateLimit` / `OrderAlreadyCancelled` / `OrderAlreadyFullyFilled`
   deriving DecidableEq, Repr
 
 /-- `AccountStreamEvent::Item(AccountEvent { exchange, kind })` with
@@ -156,11 +200,24 @@ def Cfg.configured (c : Cfg) (k : Key) : Bool :=
 def indexKey (c : Cfg) (k : Key) : Option Key :=
   if c.configured k then some k else none
 
-/-- `AccountEventIndexer::order_error` / `api_error` (indexer.rs:204-259). -/
+/-- `ExecutionInstrumentMap::find_asset_index` (map.rs:89-93): a lookup of the asset NAME in
+`asset_names`; identity on the configured names `0 … nAssets-1`, `IndexError::AssetIndex` elsewhere. -/
+def findAssetIndex (c : Cfg) (a : Nat) : Option Nat :=
+  if a < c.nAssets then some a else none
+
+/-- `AccountEventIndexer::order_error` / `api_error` (indexer.rs:203-220, 253-258): connectivity
+errors and nameless API errors pass through; instrument- and asset-carrying ones are translated
+and FAIL on an unknown name (`?`). -/
 def indexReply (c : Cfg) : Reply → Option Outcome
   | .ok => some .ok
   | .rejected => some .rejected
   | .invalidIns i => if i < c.nInstr then some (.invalidIns i) else none
+  | .connectivity .timeout => some .timeout
+  | .connectivity .offline => some .offline
+  | .connectivity .socket => some .socket
+  | .assetInvalid a => (findAssetIndex c a).map .assetInvalid
+  | .balanceInsufficient a => (findAssetIndex c a).map .balanceInsufficient
+  | .nameless k => some (.nameless k)
 
 /-! ## `RequestFuture` = `tokio::time::Timeout` (request.rs:32-56) -/
 
@@ -194,8 +251,8 @@ static fields are the ones in the client's answer; `Ok(open)` with nothing left 
 def openOutcome (c : Cfg) (sc : Script) : Option Outcome :=
   match sc.reply with
   | .ok => some (if sc.fills then .full else .ok)
-  | .rejected => some .rejected
-  | .invalidIns i => indexReply c (.invalidIns i)
+  -- `Err(error) => OrderState::inactive(self.indexer.order_error(error)?)`
+  | r => indexReply c r
 
 def processOpenResponse (c : Cfg) (r : Req) : Option Event :=
   match indexKey c r.spec.script.echo with
@@ -316,6 +373,12 @@ def specResponseEvent (q : ReqSpec) : Event :=
     | .ok => if q.kind = .open ∧ q.script.fills then .full else .ok
     | .rejected => .rejected
     | .invalidIns i => .invalidIns i
+    | .connectivity .timeout => .timeout
+    | .connectivity .offline => .offline
+    | .connectivity .socket => .socket
+    | .assetInvalid a => .assetInvalid a
+    | .balanceInsufficient a => .balanceInsufficient a
+    | .nameless k => .nameless k
   ⟨q.kind, q.key.exchange, q.key, if q.kind = .open then q.body else 0, outcome⟩
 
 /-- The timeout failure for the request. -/
@@ -330,12 +393,14 @@ def specEvent (q : ReqSpec) : Fate → Event
 def Resolution.event (x : Resolution) : Event := specEvent x.req.spec x.fate
 
 /-- The hypothesis `EchoesKey`: the client answers about the order it was asked about (same key,
-same static fields) and any name in its error is one the manager is configured with. -/
+same static fields) and any name in its error — instrument or asset — is one the manager is
+configured with. -/
 def echoes (c : Cfg) (q : ReqSpec) : Bool :=
   q.script.echo == q.key &&
   (q.kind != .open || q.script.echoBody == q.body) &&
   (match q.script.reply with
    | .invalidIns i => decide (i < c.nInstr)
+   | .assetInvalid a | .balanceInsufficient a => decide (a < c.nAssets)
    | _ => true)
 
 /-- What identifies "the event for that request" on the wire: kind, exchange, instrument,
